@@ -1,7 +1,376 @@
-//! C11 — not built yet.
-use lv_common::Ctx;
+//! C11 — Blob share encoding round-trips and is sized correctly.
+//!
+//! Oracles: (1) the independent sparse-share splitter `lv_gen::refs::ref_split_blob` (bytes and count),
+//! (2) round trip `reconstruct(to_shares(b)) == b`, also from the reference splitter's shares,
+//! (3) `shares_len() == to_shares().len()`, (4) `reconstruct_all` over the concatenation of several blobs'
+//! shares interleaved with reserved-namespace shares returns the blobs in order.
+use celestia_types::consts::appconsts::AppVersion;
+use celestia_types::nmt::Namespace;
+use celestia_types::{Blob, Share};
+use lv_common::Prng;
+use lv_common::prelude::*;
+use lv_gen::blob::{BlobSpec, Fill, app_version, blob_spec_strategy, boundary_lens, near_capacity_boundary};
+use lv_gen::refs;
 
-pub fn run(_ctx: &mut Ctx) {
-    eprintln!("C11: check not built yet");
-    std::process::exit(2);
+// ------------------------------------------------------------------------------------------------ single blob
+
+fn describe_diff(a: &Blob, b: &Blob) -> String {
+    let mut d = Vec::new();
+    if a.namespace != b.namespace {
+        d.push("namespace".to_string());
+    }
+    if a.data != b.data {
+        d.push(format!("data (len {} vs {})", a.data.len(), b.data.len()));
+    }
+    if a.share_version != b.share_version {
+        d.push(format!("share_version ({} vs {})", a.share_version, b.share_version));
+    }
+    if a.commitment != b.commitment {
+        d.push("commitment".to_string());
+    }
+    if a.index != b.index {
+        d.push("index".to_string());
+    }
+    if a.signer != b.signer {
+        d.push("signer".to_string());
+    }
+    d.join(", ")
+}
+
+/// Build the blob of a spec with the code under test and apply every single-blob oracle.
+/// Returns the blob and its shares for use by the list check (None when a known finding cut the case short).
+fn check_single(spec: &BlobSpec, app: AppVersion, obs: &mut Obs) -> Result<Option<(Blob, Vec<Share>)>, Failure> {
+    let ns = spec.namespace();
+    let data = spec.data();
+    let signer = spec.signer_addr();
+    let signed = spec.signed();
+    let len = data.len();
+    let near = near_capacity_boundary(len, signed);
+    let what = format!("len={len} signed={signed} app={app:?} ns={} fill={:?}", hex::encode(ns.as_bytes()), spec.fill);
+
+    obs.eval((near || signed).then(|| digest_of(&(spec, app.as_u64()))));
+    obs.label(if signed { "signed" } else { "unsigned" });
+    if near {
+        obs.label(if signed { "signed-boundary" } else { "unsigned-boundary" });
+    }
+    if signed && len > refs::FIRST_CAP_V1 && len <= refs::FIRST_CAP_V0 {
+        obs.label("signed-len-459..478");
+    }
+    if !matches!(spec.fill, Fill::Random) {
+        obs.label("payload-with-zero-or-ff-runs");
+    }
+
+    let blob = match Blob::new(ns, data.clone(), signer, app) {
+        Ok(b) => b,
+        Err(e) => {
+            obs.fail("C11:blob-new-failed", format!("Blob::new failed for a valid blob ({what}): {e}"))?;
+            return Ok(None);
+        }
+    };
+    obs.check(
+        blob.namespace == ns && blob.data == data && blob.signer == signer && blob.share_version == signed as u8 && blob.index.is_none(),
+        "C11:blob-new-fields",
+        || format!("Blob::new did not keep the given fields ({what})"),
+    )?;
+
+    // --- split, compared with the independent splitter
+    let shares = match blob.to_shares() {
+        Ok(s) => s,
+        Err(e) => {
+            obs.fail("C11:to-shares-failed", format!("to_shares failed ({what}): {e}"))?;
+            return Ok(None);
+        }
+    };
+    let ref_shares = spec.ref_shares();
+    let ref_count = refs::ref_share_count(len, signed);
+    if ref_shares.len() != ref_count {
+        return Err(Failure::new("gen", format!("reference splitter and reference count disagree ({what})")));
+    }
+    if shares.len() > 1 {
+        obs.label("multi-share");
+    }
+    obs.check(shares.len() == ref_count, "C11:share-count-differs-from-spec", || {
+        format!("to_shares produced {} shares, the share format needs {ref_count} ({what})", shares.len())
+    })?;
+    if shares.len() == ref_count {
+        for (i, (s, r)) in shares.iter().zip(&ref_shares).enumerate() {
+            if s.as_ref() != &r[..] {
+                let at = s.as_ref().iter().zip(r.iter()).position(|(a, b)| a != b).unwrap_or(0);
+                obs.fail(
+                    "C11:share-bytes-differ-from-spec",
+                    format!("share {i} differs from the independent splitter at byte {at}: got {:#04x} want {:#04x} ({what})", s.as_ref()[at], r[at]),
+                )?;
+                break;
+            }
+        }
+    }
+
+    // --- reported size
+    let reported = blob.shares_len();
+    if reported != shares.len() {
+        let sig = if signed && reported == refs::ref_share_count(len, false) { "C11:shares-len-ignores-signer" } else { "C11:shares-len-mismatch" };
+        obs.fail(sig, format!("shares_len() = {reported} but to_shares() produced {} shares ({what})", shares.len()))?;
+    }
+
+    // --- share accessors on the produced shares
+    if let Some(first) = shares.first() {
+        let acc_ok = first.sequence_length() == Some(len as u32)
+            && first.signer() == signer
+            && shares.iter().all(|s| s.namespace() == ns && !s.is_parity())
+            && shares.iter().skip(1).all(|s| s.sequence_length().is_none() && s.signer().is_none())
+            && shares.iter().all(|s| s.info_byte().map(|i| i.version()) == Some(signed as u8));
+        obs.check(acc_ok, "C11:share-accessors", || format!("share accessors (sequence_length/signer/namespace/version) disagree with the blob ({what})"))?;
+    }
+
+    // --- round trip
+    match Blob::reconstruct(&shares, app) {
+        Ok(back) => obs.check(back == blob, "C11:reconstruct-differs", || {
+            format!("reconstruct(to_shares(b)) != b: differing fields: {} ({what})", describe_diff(&back, &blob))
+        })?,
+        Err(e) => obs.fail("C11:reconstruct-failed", format!("reconstruct(to_shares(b)) failed: {e} ({what})"))?,
+    }
+    // round trip starting from the reference splitter's shares (what another implementation would put on chain)
+    let spec_shares: Result<Vec<Share>, _> = ref_shares.iter().map(|r| Share::from_raw(r)).collect();
+    match spec_shares {
+        Ok(ss) => match Blob::reconstruct(&ss, app) {
+            Ok(back) => obs.check(back == blob, "C11:reconstruct-from-spec-shares-differs", || {
+                format!("reconstruct(reference shares) != b: differing fields: {} ({what})", describe_diff(&back, &blob))
+            })?,
+            Err(e) => obs.fail("C11:reconstruct-from-spec-shares-failed", format!("reconstruct(reference shares) failed: {e} ({what})"))?,
+        },
+        Err(e) => obs.fail("C11:share-from-raw-failed", format!("Share::from_raw rejected a reference share: {e} ({what})"))?,
+    }
+    Ok(Some((blob, shares)))
+}
+
+// ------------------------------------------------------------------------------------------------ lists
+
+#[derive(Clone, Debug, Serialize, Deserialize)]
+pub enum Filler {
+    Tx(u8),
+    Pfb(u8),
+    PrimaryPadding(u8),
+    TailPadding(u8),
+    Parity(u8),
+    /// other primary reserved namespace 0x00..00<id>
+    Primary { id: u8, n: u8 },
+    /// secondary reserved namespace (version 255) with the given last byte
+    Secondary { id: u8, n: u8 },
+}
+
+#[derive(Clone, Debug, Serialize, Deserialize)]
+pub struct ListCase {
+    pub app: u8,
+    pub blobs: Vec<BlobSpec>,
+    /// reserved-namespace shares placed before blob i (index blobs.len() = after the last blob)
+    pub gaps: Vec<Vec<Filler>>,
+    pub seed: u64,
+    /// observation only: additionally place a namespace padding share after this blob
+    pub ns_padding_after: Option<u16>,
+}
+
+fn reserved_share(ns: Namespace, seq_start: bool, rng: &mut Prng) -> Share {
+    let mut b = vec![0u8; refs::SHARE];
+    b[..refs::NS].copy_from_slice(ns.as_bytes());
+    b[refs::NS] = seq_start as u8;
+    rng.fill(&mut b[refs::NS + 1..]);
+    if seq_start {
+        b[refs::NS + 1..refs::NS + 5].copy_from_slice(&(300u32).to_be_bytes());
+    }
+    Share::from_raw(&b).expect("reserved share must parse")
+}
+
+fn filler_shares(f: &Filler, rng: &mut Prng) -> Vec<Share> {
+    let (ns, n) = match f {
+        Filler::Tx(n) => (Namespace::TRANSACTION, *n),
+        Filler::Pfb(n) => (Namespace::PAY_FOR_BLOB, *n),
+        Filler::PrimaryPadding(n) => (Namespace::PRIMARY_RESERVED_PADDING, *n),
+        Filler::TailPadding(n) => (Namespace::TAIL_PADDING, *n),
+        Filler::Primary { id, n } => (Namespace::const_v0([0, 0, 0, 0, 0, 0, 0, 0, 0, *id]), *n),
+        Filler::Secondary { id, n } => (Namespace::const_v255(*id), *n),
+        Filler::Parity(n) => {
+            return (0..*n).map(|_| Share::parity(&rng.bytes(refs::SHARE)).expect("parity share")).collect();
+        }
+    };
+    (0..n).map(|i| reserved_share(ns, i == 0, rng)).collect()
+}
+
+fn filler_strategy() -> impl Strategy<Value = Filler> {
+    prop_oneof![
+        2 => (1u8..4).prop_map(Filler::Tx),
+        2 => (1u8..4).prop_map(Filler::Pfb),
+        2 => (1u8..3).prop_map(Filler::PrimaryPadding),
+        2 => (1u8..4).prop_map(Filler::TailPadding),
+        1 => (1u8..3).prop_map(Filler::Parity),
+        1 => (any::<u8>(), 1u8..3).prop_map(|(id, n)| Filler::Primary { id, n }),
+        1 => (any::<u8>(), 1u8..3).prop_map(|(id, n)| Filler::Secondary { id, n }),
+    ]
+}
+
+fn list_strategy(max_blobs: usize, max_len: u32) -> impl Strategy<Value = ListCase> {
+    (
+        1u8..=7,
+        prop::collection::vec(blob_spec_strategy(max_len), 1..=max_blobs),
+        prop::collection::vec(prop::collection::vec(filler_strategy(), 0..3), max_blobs + 1),
+        any::<u64>(),
+        prop::option::weighted(0.15, any::<u16>()),
+    )
+        .prop_map(|(app, blobs, gaps, seed, ns_padding_after)| ListCase { app, blobs, gaps, seed, ns_padding_after })
+}
+
+fn check_list(case: &ListCase, obs: &mut Obs) -> Result<(), Failure> {
+    let app = app_version(case.app);
+    let mut rng = Prng::new(case.seed);
+    let mut blobs = Vec::new();
+    let mut all: Vec<Share> = Vec::new();
+    let mut fillers = 0usize;
+    let mut blob_ends = Vec::new();
+    for (i, spec) in case.blobs.iter().enumerate() {
+        for f in case.gaps.get(i).map(|g| g.as_slice()).unwrap_or(&[]) {
+            let s = filler_shares(f, &mut rng);
+            fillers += s.len();
+            all.extend(s);
+        }
+        // one app version for the whole list: signers exist from V3 on
+        let mut spec = spec.clone();
+        if app < AppVersion::V3 {
+            spec.signer = None;
+        }
+        let Some((blob, shares)) = check_single(&spec, app, obs)? else { return Ok(()) };
+        all.extend(shares);
+        blob_ends.push(all.len());
+        blobs.push(blob);
+    }
+    for f in case.gaps.get(case.blobs.len()).map(|g| g.as_slice()).unwrap_or(&[]) {
+        let s = filler_shares(f, &mut rng);
+        fillers += s.len();
+        all.extend(s);
+    }
+    let adjacent_same_ns = blobs.windows(2).any(|w| w[0].namespace == w[1].namespace);
+    let nontrivial = blobs.len() >= 2 || fillers > 0;
+    obs.eval(nontrivial.then(|| digest_of(case)));
+    obs.label(if blobs.len() >= 2 { "list-multi-blob" } else { "list-single-blob" });
+    if fillers > 0 {
+        obs.label("list-with-reserved-filler");
+    }
+    if adjacent_same_ns {
+        obs.label("list-adjacent-blobs-same-namespace");
+    }
+    let what = format!("{} blobs (lens {:?}), {} reserved shares, {} shares total, app {app:?}", blobs.len(), blobs.iter().map(|b| b.data.len()).collect::<Vec<_>>(), fillers, all.len());
+    match Blob::reconstruct_all(&all, app) {
+        Ok(back) => {
+            if back != blobs {
+                let first = back.iter().zip(&blobs).position(|(a, b)| a != b).unwrap_or(back.len().min(blobs.len()));
+                obs.fail(
+                    "C11:reconstruct-all-differs",
+                    format!("reconstruct_all returned {} blobs, expected {}; first difference at blob {first} ({what})", back.len(), blobs.len()),
+                )?;
+            }
+        }
+        Err(e) => obs.fail("C11:reconstruct-all-failed", format!("reconstruct_all failed: {e} ({what})"))?,
+    }
+
+    // Observation only (not part of the property: a namespace padding share lives in the *user* namespace):
+    // what does reconstruct_all do with a namespace padding share between blobs?
+    if let Some(sel) = case.ns_padding_after {
+        let i = pick(sel, blobs.len());
+        let pad = Share::from_raw(&refs::padding_share(&blobs[i].namespace.as_bytes().try_into().unwrap())).expect("padding share");
+        let mut with_pad = all.clone();
+        with_pad.insert(blob_ends[i], pad);
+        match lv_common::no_panic(|| Blob::reconstruct_all(&with_pad, app)) {
+            Ok(Ok(back)) if back == blobs => obs.label("obs:namespace-padding-ignored"),
+            Ok(Ok(back)) => {
+                obs.label("obs:namespace-padding-yields-extra-blob");
+                obs.note(format!(
+                    "observation (outside C11's statement): a namespace padding share between blobs makes reconstruct_all return {} blobs instead of {} (an extra blob with {} data bytes)",
+                    back.len(),
+                    blobs.len(),
+                    back.get(i + 1).map(|b| b.data.len()).unwrap_or(0)
+                ));
+            }
+            Ok(Err(e)) => {
+                obs.label("obs:namespace-padding-makes-reconstruct-all-fail");
+                obs.note(format!("observation (outside C11's statement): a namespace padding share between blobs makes reconstruct_all fail: {e}"));
+            }
+            Err(p) => {
+                obs.label("obs:namespace-padding-panics");
+                obs.note(format!("observation (outside C11's statement): namespace padding share makes reconstruct_all panic: {p}"));
+            }
+        }
+    }
+    Ok(())
+}
+
+// ------------------------------------------------------------------------------------------------ run
+
+fn enumerated_specs() -> Vec<BlobSpec> {
+    let mut out = Vec::new();
+    for signed in [false, true] {
+        let mut lens: Vec<usize> = (1..=1100).collect();
+        lens.extend(boundary_lens(signed, 9));
+        lens.sort();
+        lens.dedup();
+        for len in lens {
+            let mut rng = Prng::new((len as u64) << 1 | signed as u64);
+            let fill = match len % 11 {
+                0 => Fill::Zeros,
+                1 | 2 => Fill::ZeroTail,
+                3 => Fill::Ones,
+                _ => Fill::Random,
+            };
+            out.push(BlobSpec {
+                ns_id: rng.array::<10>(),
+                len: len as u32,
+                signer: signed.then(|| rng.array::<20>()),
+                app: if signed { 3 + (len % 5) as u8 } else { 1 + (len % 7) as u8 },
+                fill,
+                seed: rng.next_u64(),
+            });
+        }
+    }
+    out
+}
+
+pub fn run(ctx: &mut Ctx) {
+    ctx.assume("reference = lv_gen::refs::ref_split_blob / ref_share_count, written from the celestia share format (29-byte namespace, info byte, 4-byte big-endian sequence length, 20-byte signer for share version 1, zero padding); sha2 only");
+    ctx.assume("signed blobs are generated only with app version >= 3 (signers do not exist before); blob equality is the derived PartialEq on all six fields (commitment recomputed by reconstruct)");
+    ctx.assume("lists interleave shares of RESERVED namespaces only (tx, pfb, primary padding, other primary/secondary reserved, tail padding, parity), placed between blobs; namespace padding shares (user namespace) are outside the statement and only observed");
+    ctx.essential(&[
+        "signed-len-459..478",
+        "unsigned-boundary",
+        "signed-boundary",
+        "multi-share",
+        "list-with-reserved-filler",
+        "list-multi-blob",
+        "list-adjacent-blobs-same-namespace",
+    ]);
+
+    ctx.enumerate(
+        "all-lengths",
+        "every data length 1..=1100 plus every length within +-2 of first_capacity(signer)+k*482 for k<=9, each without and with signer (namespace/payload/app version derived from the length). Per blob: to_shares bytes and count == independent splitter, shares_len == count, reconstruct(to_shares) == blob, reconstruct(reference shares) == blob, share accessors. Non-trivial = length within +-2 of a share-capacity boundary, or a signed blob",
+        true,
+        enumerated_specs(),
+        |spec, obs| check_single(spec, spec.app(), obs).map(|_| ()),
+    );
+
+    let max_len = ctx.tier.pick(8192u32, 16_384u32);
+    let singles = ctx.tier.pick(1_000_000, 1_500_000);
+    ctx.proptest(
+        "random-blobs",
+        "random non-reserved namespaces (incl. smallest/largest), signers, app versions 1..7 (signed: 3..7), payload fills (random / zeros / zero tail / 0xff), lengths biased to capacity boundaries and uniform up to the tier's maximum; same oracles as all-lengths. Non-trivial = boundary length or signed blob (distinct by recipe)",
+        singles,
+        move || blob_spec_strategy(max_len),
+        |spec, obs| check_single(spec, spec.app(), obs).map(|_| ()),
+    );
+
+    let lists = ctx.tier.pick(250_000, 400_000);
+    let max_blobs = ctx.tier.pick(6usize, 10usize);
+    let list_max_len = ctx.tier.pick(4096u32, 8192u32);
+    ctx.proptest(
+        "blob-lists",
+        "1..6 (thorough 10) blobs under one app version, their shares concatenated in order with 0..2 runs of reserved-namespace shares before/between/after them: reconstruct_all == the blobs in order (each blob also passes the single-blob oracles). Non-trivial = at least two blobs or at least one reserved share present",
+        lists,
+        move || list_strategy(max_blobs, list_max_len),
+        check_list,
+    );
 }
